@@ -645,10 +645,23 @@ func (cmd *Command) printDiagnostics(cs []*lint.Analyzer, diagnostics []diagnost
 			if di.Message != dj.Message {
 				return di.Message < dj.Message
 			}
-			if di.BuildName != dj.BuildName {
-				return di.BuildName < dj.BuildName
+			// Sort by the remaining parts of the descriptor before the build name, so that diagnostics that only
+			// differ in their build name are adjacent. The deduplication below relies on that.
+			if di.Category != dj.Category {
+				return di.Category < dj.Category
 			}
-			return di.Category < dj.Category
+			ei := di.End
+			ej := dj.End
+			if ei.Filename != ej.Filename {
+				return ei.Filename < ej.Filename
+			}
+			if ei.Line != ej.Line {
+				return ei.Line < ej.Line
+			}
+			if ei.Column != ej.Column {
+				return ei.Column < ej.Column
+			}
+			return di.BuildName < dj.BuildName
 		})
 
 		filtered := []diagnostic{
